@@ -1,12 +1,8 @@
 import Pfl
-#print axioms Pfl.ENFA.isEmpty_iff
-#print axioms Pfl.ENFA.isDeterministicE_iff
-#print axioms Pfl.ENFA.isDeterministicN_iff
-#print axioms Pfl.ENFA.reachableCycle_iff
-#print axioms Pfl.ENFA.isAcyclic_iff
-#print axioms Pfl.ENFA.mem_langUpTo_iff
-#print axioms Pfl.ENFA.langUpTo_nodup
-#print axioms Pfl.ENFA.mem_leadingToFinal_iff
-#print axioms Pfl.ENFA.acceptedWords_exact
-#print axioms Pfl.ENFA.acceptedWords_exact_unbounded
+#print axioms Pfl.FST.relOutputs_iff
+#print axioms Pfl.FST.translate_exact
+#print axioms Pfl.FST.rename_injective
+#print axioms Pfl.FST.union_rel
+#print axioms Pfl.FST.concatenate_rel
+#print axioms Pfl.FST.kleeneStar_rel
 #print axioms Pfl.ENFA.member_iff
